@@ -12,7 +12,7 @@ from ..model_ac import ModelAC
 
 ID = "C05"
 LEVEL = "exploration"
-SHARDS = {"quick": 4, "thorough": 16}
+SHARDS = {"quick": 8, "thorough": 16}
 RULE = ("req: _LanProtocolV3._encode_encrypted_request(counter, payload) under a session key decoded by the independent V3 "
         "decoder (type 6, counter, payload, pad == (16-(len+2)%16)%16, size == len+pad+32, total == size+8, valid SHA-256 tag); "
         "resp: packets from the independent encoder decoded by _process_packet; tamper: every single-bit flip of one response "
@@ -241,4 +241,4 @@ def run(ctx) -> None:
 
     ctx.hyp("codec", codec_cases, runner, ctx.n(1500, 400000))
     ctx.hyp("tamper", tamper_cases, runner, ctx.n(1000, 200000))
-    ctx.hyp("wire", wire_cases, runner, ctx.n(300, 48000))
+    ctx.hyp("wire", wire_cases, runner, ctx.n(1200, 64000))
